@@ -7,7 +7,10 @@ unit = sys.argv[1]
 repo = sys.argv[2] if len(sys.argv) > 2 else "/repo"
 os.makedirs("/tmp/w", exist_ok=True)
 subprocess.run(["rsync", "-a", "--delete", "--exclude", "/target", "--exclude", "/.git", repo + "/", "/tmp/sc/"], check=True)
-pk = {"sta": ["adss", "sta-rs"], "ppo": ["ppoprf"]}[unit]
+import driver
+pk = driver.UNITS[unit]["packages"]
+for pkg, rel in driver.UNITS[unit].get("expand", []):
+    runner.expand_crate("/tmp/sc", pkg, rel)
 arts, deps, t = runner.build_deps("/tmp/sc", pk)
 e = emit.Emitter("/tmp/sc", "/verif")
 text = e.process("units/%s.vt" % unit)
